@@ -104,4 +104,17 @@ def feed {α} (s : St (Nat × α)) : List (Nat × α) → St (Nat × α) × List
     let (s2, r2, o2) := feed s1 ms
     (s2, r1 ++ r2, o1 || o2)
 
+/-- least index that has not arrived (`fuel` ≥ number of arrivals + 1 suffices) -/
+def mexFrom (A : List Nat) : Nat → Nat → Nat
+  | 0, k => k
+  | fuel + 1, k => if A.contains k then mexFrom A fuel (k + 1) else k
+
+def mexOf (A : List Nat) : Nat := mexFrom A (A.length + 1) 0
+
+/-- The stream's outstanding window stays below 256: every index, when it arrives, is less
+than 256 ahead of the first index still missing at that moment (so its sequence number
+identifies it). -/
+def WindowOk (arr : List Nat) : Prop :=
+  ∀ n (h : n < arr.length), arr[n] < mexOf (arr.take n) + 256
+
 end Srad.Reseq
